@@ -20,6 +20,7 @@ RULE = (
     "through save/load in both contexts, complete; (d) Hypothesis: notes over every NOTECMD x vel 0..129 x 16-bit fields, pattern byte "
     "images of shapes up to 32 x 64 made of valid cells, through raw_data and through project save/load, arriving on a fresh pattern or on one that was read / bulk-edited / had cells replaced / held another image before; every field of a decoded cell is re-assigned and the bytes must follow; cells of loaded patterns are edited. distinct = triple / case hash; "
     "non-trivial = old word whose target sub-field is already non-zero (setters), non-empty cell (notes/patterns)"
+    ' Also (added while the seeded-change rounds of DESIGN section 9 ran): Also: packed words (SFGS, SMII) changed one sub-field at a time on loaded objects and saved again; images arriving on patterns that were read / bulk-edited / resized / had cells moved or repeated.'
 )
 ASSUMPTIONS = [
     "cell layout '<BBHHH' (note, vel, module, ctl, val) as documented; ctl = controller<<8 | effect, val = XX<<8 | YY",
